@@ -1,5 +1,5 @@
 (* C09 — the disk spool queue is an exact persistent FIFO across clean restarts. *)
-From CRNG Require Import Base.ListX Base.Bytes Base.Decimal Model.DiskQueue Proofs.DQBasics Proofs.DQReader Proofs.DQFifo.
+From CRNG Require Import Base.ListX Base.Bytes Base.Decimal Model.DiskQueue Proofs.DQBasics Proofs.DQReader Proofs.DQFifo Proofs.DQFifoSeg.
 
 (* a record is a 4-byte big-endian length followed by the payload; reading it back from any
    position of a file yields the payload and leaves exactly what followed it *)
@@ -25,12 +25,43 @@ Print Assumptions C09_meta_roundtrip.
    the read-ahead of one record, the sync counter, the metadata file written and parsed back — produces exactly
    the outputs of the abstract queue: gets deliver the put messages in order, each once; a restart loses nothing,
    duplicates nothing (the record that was read ahead but not delivered is read again) and reports the number
-   of undelivered messages as depth.  (Histories with roll-over are covered by the differential run.) *)
+   of undelivered messages as depth.  (Superseded by C09_fifo_all_segments below, kept as the simpler statement.) *)
 Theorem C09_fifo_first_segment :
   forall c ops, fits c 0 ops = true ->
     fst (dq_run c (dq_open c fs_empty []) ops) = fifo_run [] ops.
 Proof. exact fifo_from_empty. Qed.
 Print Assumptions C09_fifo_first_segment.
+
+(* The same, at full strength: every history of puts, gets, sync ticks and clean restarts, any maxBytesPerFile
+   (also 0, also smaller than a single message), any syncEvery, any message sizes below 2^31 bytes.  The invariant
+   (DQFifoSeg.sinv) lays the undelivered messages out over the segment files readFileNum .. writeFileNum: every
+   file but the last was closed by the record that grew it beyond the limit, the reader leaves a file with exactly
+   that record (reader and writer agree where a segment ends), a consumed file is removed when its last record is
+   delivered, nothing exists beyond the write file, and the record read ahead survives puts, ticks and restarts
+   (a record filling a whole segment from position 0 is read twice, with the same result).  Hence roll-over,
+   messages larger than a segment and close/reopen between any two operations lose and duplicate nothing, and
+   the depth reported at rest is the number of undelivered messages. *)
+Theorem C09_fifo_all_segments :
+  forall c ops, smallops ops = true ->
+    fst (dq_run c (dq_open c fs_empty []) ops) = fifo_run [] ops.
+Proof. exact fifo_from_empty_segments. Qed.
+Print Assumptions C09_fifo_all_segments.
+
+(* ... and from every state the invariant describes (pre: closed files, w: the open file, off: delivered records of
+   the first file) the outputs are those of the abstract queue holding the undelivered messages *)
+Theorem C09_fifo_from_any_layout :
+  forall c ops d pre w off, sinv c d pre w off -> smallops ops = true ->
+    fst (dq_run c (Some d) ops) = fifo_run (undel pre w off) ops.
+Proof. exact fifo_refinement_segments. Qed.
+Print Assumptions C09_fifo_from_any_layout.
+
+Example C09_all_segments_nonvacuous :
+  let c := {| c_max := 10; c_syncevery := 3 |} in
+  let ops := [Put [97;97;97]; Put [98;98;98;98;98;98;98;98;98;98;98;98]; Put [99]; Get; CloseReopen; Get; Get; Get] in
+  smallops ops = true /\
+  (* the history does roll over: the final state writes (and reads) file 1 *)
+  match snd (dq_run c (dq_open c fs_empty []) ops) with Some d => writeFileNum d | None => 0 end = 1.
+Proof. vm_compute. auto. Qed.
 
 (* the read handle: whatever the state of its buffer, reading n bytes at logical position p of the file
    returns exactly those bytes and leaves the handle consistent at p + n *)
